@@ -5,12 +5,38 @@ CFG = {
     "exe": "geomv_c10",
     "go_cmd": "c10",
     "stages": ["go:gen", "go:impl", "lean:judge"],
-    "theorems": [T + n for n in []],
+    "theorems": [T + n for n in [
+        "C10_structure", "C10_map_vertices", "C10_vertex_i", "C10_nil_identity", "C10_error_no_panic",
+        "C10_pure", "C10_pure_last", "C10_pure_states", "C10_history_state", "C10_step_state_eq",
+        "C10_no_index_fault", "C10_no_panic",
+    ]],
     "trusted_base": [
         "Lean 4.33.0 kernel; axioms of every theorem printed by #print axioms must be within {propext, Classical.choice, Quot.sound}",
+        "model lean/GeomV/C10/{GeomTransform,Transformer}.lean is tied to /repo/transform.go and /repo/proj/{transform,adjust_axis}.go by the correspondence run on every check: "
+        "Geom.Transform results compared exactly (bit patterns); transformer results compared bit-for-bit with the model instantiated by oracle tables "
+        "(projection forward/inverse, datumTransform, constructor errors) filled from the real code through the exported API, and the SR objects' full "
+        "field dumps (reflection, unexported datum included) compared after every call with 'as parsed' / 'as left by one constructor run'",
+        "the hypothesis CoreOK of C10_pure (re-running a projection constructor on an initialised SR changes nothing; it never writes Name/Axis/ToMeter/"
+        "FromGreenwich/DatumCode/datum; datumTransform leaves the datums as found) is not proved about the Go constructors: it is checked on the real "
+        "objects after every generated call (state tags) — any other state is a DIFF",
+        "IEEE-754 double arithmetic of Lean's Float (C) equals Go's for * + - / and negation (NaN payloads excluded)",
+        "harness/cmd/c10 + lean driver + lib/vcheck.py transport inputs faithfully",
     ],
-    "assumptions": [],
-    "rule": "",
+    "assumptions": [
+        "geometries have no nil members (a nil interface inside a GeometryCollection or a nil *Bounds panics in Go; the model reproduces it, the theorems exclude it by `noNil`)",
+        "nil slices and empty slices are not distinguished",
+        "all transformers of a pool are built before the first call (NewTransform's nil-if-Equal answer can flip once a constructor has run on one of two equal SRs; noted, outside the property)",
+        "axis strings have three letters (what projString accepts; DeriveConstants defaults to enu)",
+    ],
+    "rule": "gt lines: grammar-generated geometries of all 8 types (nesting <= 3, member counts 0..7, coordinates from random bit patterns, NaN payloads, "
+            "-0, +-Inf, integers, ordinary values) x {nil transformer, pure bit-pattern transformer failing on 'poison' vertices placed with density "
+            "0/0.02/0.1/0.4 (several failing vertices => order matters), counting transformer failing on its k-th call for k = first/middle/last/none/random}; "
+            "every answer checked against Spec.TransformSpec, the recorded call log against the vertex list, input slices compared before/after and after "
+            "scribbling over the output (aliasing). h lines: histories of 2..50 calls over pools of 1..6 transformers built from 2..6 shared *SR objects drawn "
+            "from a 43-entry catalogue stratified by {no hop, hop on source side, hop on dest side, both, non-default axis order (11 axis strings), registry "
+            "entries WGS84/EPSG:4326/EPSG:3857/GOOGLE, grid-shift datums and failing constructors, random}; every answer compared bit-for-bit with a freshly "
+            "parsed + freshly built transformer's answer, with the Lean model's answer, and the SR states with the model's. "
+            "distinct = distinct input line; non-trivial = class not nocalls/skipped/bad",
     "trivial_class": r"(nocalls|skipped|^gt-bad|^hist-bad)",
     "timeout": {"quick": 600, "thorough": 3000},
 }
